@@ -197,7 +197,8 @@ def class_keywords(H, cl):
 # ---------------------------------------------------------------------------------------------------------------
 
 SCALARS = [("zero", "0"), ("neg1", "-1"), ("one", "1"), ("two", "2"), ("i32max", "2147483647"),
-           ("i32max1", "2147483648"), ("i64max", "9223372036854775807"), ("1e30", "1e30"), ("1e308", "1e308"),
+           ("i32max1", "2147483648"), ("i64max", "9223372036854775807"),
+           ("2p61", "2305843009213693952"), ("2p32", "4294967296"), ("1e30", "1e30"), ("1e308", "1e308"),
            ("nan", "nan"), ("inf", "inf"), ("neginf", "-inf")]
 P0_SCALARS = ("zero", "neg1", "i32max", "1e308")
 NUM_RE = re.compile(r"(?<![A-Za-z0-9_.])[-+]?(?:\d+\.?\d*|\.\d+)(?:[eE][-+]?\d+)?(?![A-Za-z0-9_.])")
@@ -759,6 +760,23 @@ S_VARIANTS = [
      " forceConstant 4.0\n outputAccumulatedWork on\n}\nhistogram {\n colvars d1 d2\n}\n", "off"),
 ]
 S_N1, S_N2 = 4, 10
+V_LATER = ("colvar {\n  name v9\n  distance {\n    group1 { atomNumbers 13 14 }\n    group2 { atomNumbers 15 16 }\n  }\n}\n"
+           "harmonic {\n  name hv9\n  colvars v9\n  centers 1.0\n  forceConstant 0.5\n}\n")
+# rejected configurations that read the deprecated wall keywords of a colvar (which queue an automatically generated
+# harmonicWalls block inside the module) before failing
+LEGACY_RS = [
+    ("legacy_walls.misspelt_keyword", "colvar {\n  name rj1\n  lowerWall 1.0\n  upperWall 5.0\n  lowerWallConstant 2.0\n  upperWallConstant 2.0\n  noSuchKeyword 1\n"
+     "  distance {\n    group1 { atomNumbers 17 }\n    group2 { atomNumbers 18 }\n  }\n}\n"),
+    ("legacy_walls.no_component", "colvar {\n  name rj1\n  lowerWall 1.0\n  upperWall 5.0\n  lowerWallConstant 2.0\n  upperWallConstant 2.0\n}\n"),
+    ("legacy_walls.bad_atoms", "colvar {\n  name rj1\n  upperWall 5.0\n  upperWallConstant 2.0\n"
+     "  distance {\n    group1 { atomNumbers 0 }\n    group2 { atomNumbers 18 }\n  }\n}\n"),
+    ("legacy_walls.zero_stride", "colvar {\n  name rj1\n  lowerWall 1.0\n  lowerWallConstant 2.0\n  runAve on\n  runAveStride 0\n"
+     "  distance {\n    group1 { atomNumbers 17 }\n    group2 { atomNumbers 18 }\n  }\n}\n"),
+    ("legacy_walls.duplicate_name", "colvar {\n  name d1\n  lowerWall 1.0\n  upperWall 5.0\n  lowerWallConstant 2.0\n  upperWallConstant 2.0\n"
+     "  distance {\n    group1 { atomNumbers 17 }\n    group2 { atomNumbers 18 }\n  }\n}\n"),
+    ("legacy_walls.then_bad_bias", "colvar {\n  name d1\n  lowerWall 1.0\n  lowerWallConstant 2.0\n"
+     "  distance {\n    group1 { atomNumbers 17 }\n    group2 { atomNumbers 18 }\n  }\n}\nharmonic {\n  colvars d1\n  centers 1.0\n  forceConstant -1e308\n  targetNumSteps -1\n}\n"),
+]
 LEGACY_WALLS = ("lowerwall", "upperwall", "lowerwallconstant", "upperwallconstant")
 S_FIELDS = ("rc", "err", "en", "af", "nact")
 
@@ -788,6 +806,17 @@ def extract_R(H, T, m):
     return render([top]) + "\n"
 
 
+def interleave_legacy(Rs):
+    """every legacy-walls R is tried with every surviving set (the jobs are dealt round-robin over S_VARIANTS)"""
+    gen = [r for r in Rs if not r[0].startswith("legacy_walls.")]
+    out = []
+    for lab, R in LEGACY_RS:
+        for vi in range(len(S_VARIANTS)):
+            out.append(("%s@%d" % (lab, vi), R, "rejected_init"))
+    # len(out) is a multiple of len(S_VARIANTS): job i runs with S_VARIANTS[i % 3]
+    return out + gen
+
+
 def survivor_scn(variant, sysm, steps, R, wd):
     name, cfg, tfm = variant
     s = header24(sysm, tfm) + "module\nprefix %s\nconfig <<EOC\n%sEOC\ninit\nflush\n" % (os.path.join(wd, "out"), cfg)
@@ -799,6 +828,9 @@ def survivor_scn(variant, sysm, steps, R, wd):
     s += 'mark after\nclearerr\nscript ["cv","getnumactiveatoms"]\nflush\n'
     for t in range(S_N1 + 1, S_N2 + 1):
         s += steps[t] + "flush\n"
+        if t == S_N1 + 2:
+            # "the module stays usable": a later, valid configuration (in the control too) is accepted and works
+            s += "clearerr\nscript %s\nflush\n" % json.dumps(["cv", "config", V_LATER])
     s += 'clearerr\nscript ["cv","list"]\nscript ["cv","list","biases"]\nsavestr\nflush\n'
     return s
 
@@ -1098,6 +1130,7 @@ def run(tier, replay):
         Rs.append((lab, R, res["oc"]))
         if len(Rs) >= nsurv:
             break
+    Rs = interleave_legacy(Rs)
     srng = common.random.Random(c.seed * 31337 + 5)
     ssys = ctl_system(srng)
     ssteps = ctl_steps(srng, ssys)
